@@ -31,7 +31,7 @@ func drawC01(t *rapid.T) polCase {
 	prof := []gen.Profile{gen.NamesOnly, gen.NamesOnly, gen.NamesOnly, gen.Small, gen.Degenerate, gen.Long}[rapid.IntRange(0, 5).Draw(t, "profile")]
 	p := gen.Policy(t, arch, gen.Opts{Profile: prof})
 	c := polCase{Policy: p, Seed: rapid.Uint64().Draw(t, "seed"), Extra: drawExtraEvents(t, &p, 3)}
-	switch rapid.IntRange(0, 11).Draw(t, "prevArch") {
+	switch rapid.IntRange(0, 12).Draw(t, "prevArch") {
 	case 0, 1:
 		c.Prev = drawArch(t)
 	case 2, 3:
@@ -43,6 +43,12 @@ func drawC01(t *rapid.T) polCase {
 	case 7:
 		if n, ok := foreignOnlyName(t, arch); ok && len(p.Groups) > 0 {
 			c.Foreign = n
+		}
+	case 8:
+		c.Prev = "shared-array"
+	case 9:
+		if arch == hostArchName() {
+			c.Prev = "unset"
 		}
 	}
 	return c
@@ -101,6 +107,10 @@ func checkC01(raw json.RawMessage) (ev.Result, error) {
 		st.class("value-held-another-policy-before")
 	case c.Prev == "then-other":
 		st.class("other-policies-compiled-before-the-program-is-used")
+	case c.Prev == "shared-array":
+		st.class("names-of-all-groups-in-one-shared-array")
+	case c.Prev == "unset":
+		st.class("architecture-left-to-the-library")
 	case c.Prev == "copy":
 		st.class("architecture-given-by-a-copy-of-the-info-value")
 	case c.Prev != "" && c.Prev != p.Arch:
@@ -341,6 +351,10 @@ func drawC04(t *rapid.T) polCase {
 		c.Prev = "edited"
 	case 2:
 		c.Prev = drawArch(t) // compiled for another architecture first (whatever is built once per process is built for that one)
+	case 3, 4:
+		if arch == hostArchName() {
+			c.Prev = "unset" // the architecture is left to the library, as through the public API
+		}
 	}
 	return c
 }
@@ -438,6 +452,8 @@ func checkC04(raw json.RawMessage) (ev.Result, error) {
 	switch {
 	case c.Prev == "copy":
 		st.class("architecture-given-by-a-copy-of-the-info-value")
+	case c.Prev == "unset":
+		st.class("architecture-left-to-the-library")
 	case c.Prev == "edited":
 		st.class("value-held-another-policy-before")
 	case c.Prev != "" && c.Prev != p.Arch:
